@@ -102,10 +102,27 @@ theorem late_attach_mapping {w : World} {req : Req} {m n : String} {b : Bool}
   · exact hm
   · simp [hm] at h
 
-/-- With nothing at arrival the dispatcher yields: a refusal, the source of a new bridge, or the poll's outcome. -/
+/-- Same for a bridge registered in the window before `handleTargetBridge`'s own look-up. -/
+theorem window_attach_mapping {w : World} {req : Req} {m : String}
+    (h : (handleTargetBridge w req (.window m)).attach ≠ .none) : m = req.MappingID := by
+  unfold handleTargetBridge at h
+  by_cases hm : m = req.MappingID
+  · exact hm
+  · simp [hm] at h
+
+theorem window_attach_not_source (w : World) (req : Req) (m : String) :
+    (handleTargetBridge w req (.window m)).attach ≠ .source := by
+  simp only [handleTargetBridge]
+  by_cases hm : m = req.MappingID <;> simp [hm]
+
+theorem handleSourceBridge_attach (late : Late) :
+    (handleSourceBridge late).attach = .source ∨ (handleSourceBridge late).attach = .none := by
+  cases late <;> simp [handleSourceBridge]
+
+/-- With nothing at arrival the dispatcher yields: a refusal, the source-side outcome, or the target-side one. -/
 theorem dyn_none_cases (w : World) (id : ConnIdent) (req : Req) (late : Late) :
     openTunnelDyn w id req .none late = refuse ∨
-    openTunnelDyn w id req .none late = ⟨.ok, .source, .switch⟩ ∨
+    openTunnelDyn w id req .none late = handleSourceBridge late ∨
     openTunnelDyn w id req .none late = handleTargetBridge w req late := by
   unfold openTunnelDyn findControlConnection
   by_cases hw : req.wellFormed = true
